@@ -547,9 +547,7 @@ example : outcome hP hOps1 = ⟨(refRun hE hRecs).out, .err (.unknownVersion 2),
 /-- No call into a `dest` failed in either schedule, so the available bytes agree by the theorem. -/
 example : availOps hP hOps1 = availOps hP hOps2 :=
   (str_chunk_invariance hStart hLegal1 hLegal2 hNoSet1 hNoSet2 hFed hDrained1 hDrained2).2.1
-    (by decide +kernel) (by
-      refine ⟨trivial, ?_⟩
-      decide +kernel)
+    (by decide +kernel) (by decide +kernel)
 
 /-! ### B. `AbortRequest`; the witness against the strong statement -/
 
